@@ -18,7 +18,7 @@ function body except where stated (R-optmap, R-constpat, R-clone receiver renami
                  impl blocks; `type X = ..;` items are dropped and `Self::X` replaced by the right-hand side.
     R-implit     functions returning `impl Iterator` (iter, iter_mut, iter_created, iter_destroyed) are dropped: raw-pointer /
                  slice iterators are outside the extracted subset (Kani harnesses cover them, bounded).
-    R-refmut     functions returning RefMut are dropped (interior mutation is outside the abstraction, C11 not applicable).
+    (R-refmut is gone: functions returning RefMut are kept; their contracts state the value the guard exposes at acquisition.)
     R-optmap     `RECV.map(|x| E)` / `RECV.map(Ctor)` on an Option -> `match RECV { Some(x) => Some(E), None => None }`
                  (Verus closures carry no inferred postcondition; constructor-as-function is unsupported).
     R-constpat   `match V { T::CONST => E, .., _ => D }` -> `{ let m = V; if m == T::CONST { E } else .. else { D } }`
@@ -232,7 +232,7 @@ def rule_constpat(text, log):
 
 
 def trait_defaults(read_repo, trait, log):
-    """text of the default (bodied) methods of `trait` in src/traits.rs, minus those returning RefMut (R-refmut)"""
+    """text of the default (bodied) methods of `trait` in src/traits.rs"""
     raw = add_markers(read_repo('src/traits.rs'), 'traits')
     msk, blocks, fns = blocks_fns(raw)
     hits = [b for b in blocks if b.kind == 'trait' and b.key == trait]
@@ -241,10 +241,6 @@ def trait_defaults(read_repo, trait, log):
     out = []
     for f in fns:
         if f.block is hits[0] and f.has_body:
-            sig = strip_markers(raw[f.fn_pos:f.body_open])
-            if re.search(r'->\s*RefMut\s*<', sig):
-                log.rule('R-refmut', '%s::%s' % (trait, f.name))
-                continue
             t = raw[f.item_start:f.body_close + 1]
             t = re.sub(r'#\[inline(\(always\))?\]', '', t)
             out.append(t)
@@ -446,7 +442,6 @@ def adapt_generated(text, log, read_repo, schema=None):
     text = msub(text, r"(fn\s+iter_(?:created|destroyed)\s*\(&self\)\s*->\s*)impl\s+Iterator<Item\s*=\s*&EntityAny>", r"\1EcsEventIterator<'_>", log, 'R-implit-concrete')
     # R-implit / R-refmut
     text = drop_fns_where(text, lambda f, sig: re.search(r'->\s*impl\s+Iterator', sig) is not None, 'R-implit', log)
-    text = drop_fns_where(text, lambda f, sig: re.search(r'->\s*RefMut\s*<', sig) is not None, 'R-refmut', log)
     # Default impls carry HRTB where clauses (`for<'a> C: Default`) and are irrelevant to every property
     text = impl_drop(text, r'^Defaultfor', 'R-dropitem', log)
     # R-clone
@@ -574,17 +569,13 @@ def traits_text(read_repo, cfg, log, common_rules, table):
     log.rule('R-split', 'trait Archetype -> Archetype(tag) / ArchetypeTypes / ArchetypeOps')
     for r_ in required:
         log.rule('R-inherent', 'required method of trait Archetype: %s' % re.search(r'fn\s+(\w+)', rs.mask(r_)).group(1))
-    keep = [d for d in defaults if not re.search(r'->\s*RefMut\s*<', rs.mask(d))]
-    for d in defaults:
-        if d not in keep:
-            log.rule('R-refmut', 'Archetype::' + re.search(r'fn\s+(\w+)', rs.mask(d)).group(1))
+    keep = list(defaults)
     ops = 'pub trait ArchetypeOps: ArchetypeTypes {\n' + '\n'.join(keep) + '\n}\n'
     # ---- ArchetypeCanResolve / ArchetypeHas
     acr = block('ArchetypeCanResolve')
     acr_t = raw[rs.line_start(raw, acr.header_start):acr.close + 1]
     ah = block('ArchetypeHas')
     ah_t = raw[rs.line_start(raw, ah.header_start):ah.close + 1]
-    ah_t = drop_fns_where(ah_t, lambda f, sig: re.search(r'->\s*RefMut\s*<', sig) is not None, 'R-refmut', log)
     # ---- World -> WorldOps ; WorldHas ; WorldCanResolve
     wb, wdefaults, wrequired = trait_parts('World')
     for r_ in wrequired:
